@@ -2,7 +2,7 @@
    Statements only (copied from the lemma libraries); every proof is a bare
    `exact`; see the cited files in coq/proofs for the proofs. *)
 From Coq Require Import List NArith ZArith Bool Arith Sorting.Sorted Sorting.Permutation.
-From D2P Require Import Str Err Xml TableTypes Tables Merge Package Content Save BulletsFacts MergeFacts SaveFacts Fmt Bullets Collector Walk ShapeFacts TokFacts FrameFacts ReplaceFacts.
+From D2P Require Import Str Err Xml TableTypes Tables Merge Package Content Save BulletsFacts MergeFacts SaveFacts Fmt Bullets Collector Walk ShapeFacts TokFacts FrameFacts ReplaceFacts PyVal Source SourceBase SourceMerge.
 Import ListNotations.
 
 (* the text carried by the nodes that replace a text node (line breaks counted as newlines) is exactly str.replace of the node's text, provided the result contains no carriage return *)
@@ -147,3 +147,12 @@ Theorem C17_mistagged_text_refuted :
     /\ emit_kids v [] ns 0 <> emit_repl v old new t.
 Proof. exact emit_replace_nodewise_counterexample. Qed.
 Print Assumptions C17_mistagged_text_refuted.
+
+(* SOURCE TIE: the merge key that decides which runs a saved edit sees as one element is the translated _elem_key *)
+Theorem C17_source_elem_key :
+  forall (ext : pv -> pv -> res pv) v e ks fmt,
+  tag_is_no_ptag e -> e_ruri e <> Some [] -> rid_name_unambiguous e ->
+  ext (enc_el (AE e ks)) fmt = lift_strs (get_html_formatting e ks (env_x2h v)) ->
+  S__elem_key ext (enc_file v fmt) (enc_el (AE e ks)) = lift_key (elem_key v e ks).
+Proof. exact src_elem_key. Qed.
+Print Assumptions C17_source_elem_key.
